@@ -253,6 +253,10 @@ pub fn run(prop: PathProp, tier: Tier, seed: u64) -> i32 {
         c02_histories(&ctx, tier, seed);
         ctx.require("history_paths_after_problem_change");
     }
+    if prop == PathProp::C01 {
+        c01_histories(&ctx, tier, seed);
+        ctx.require("history_paths_after_checker_change");
+    }
     for p in crate::world::ALL_PLANNERS {
         ctx.require(&format!("paths[{}]", p.name()));
     }
@@ -321,7 +325,7 @@ fn c02_histories(ctx: &Ctx, tier: Tier, seed: u64) {
                     let Ok(sp) = kit.build() else { continue };
                     let mut changes = 0;
                     for c in &recs {
-                        if matches!(c.op, Op::Setup(_) | Op::SetPd(_)) {
+                        if matches!(c.op, Op::Setup(_) | Op::SetupMixed(..) | Op::SetPd(_)) {
                             changes += 1;
                         }
                         if let (Res::Path(p), Some(pi)) = (&c.res, c.pd) {
@@ -336,6 +340,67 @@ fn c02_histories(ctx: &Ctx, tier: Tier, seed: u64) {
                                 let mut v = h.to_json();
                                 v["property"] = json!("C02");
                                 ctx.violate(&format!("{sig}:{}:after-history", h.params.kind.name()), format!("{det} [history: {}; installed problem P{}]", h.describe(), pi + 1), v);
+                            }
+                        }
+                    }
+                }
+            });
+            i += shards;
+        }
+        ctx.merge(b);
+    });
+}
+
+/// C01 over call histories: the same problem object is set up again with a different
+/// validity checker (a changed environment); every returned path must be valid for the checker
+/// installed at that moment.
+fn c01_histories(ctx: &Ctx, tier: Tier, seed: u64) {
+    use super::hist::{run_history, Op};
+    let n = tier.pick(3_000, 40_000);
+    let shards = 64;
+    par_shards(shards, crate::util::n_threads(), |sh| {
+        let mut b = Batch::default();
+        let mut i = sh;
+        while i < n {
+            let mut r = Sm::derive(seed, &[101, i as u64]);
+            let mut h = super::c08::base_history(&mut r, i);
+            let spec = h.problems[0].spec.clone();
+            h.problems[0] = crate::world::gen_problem(&mut r, &spec, Hostility::Free);
+            // the second environment: same start / goal, but obstacles (start kept valid)
+            let mut p2 = crate::world::gen_problem(&mut r, &spec, Hostility::Plain);
+            let mut tries = 0;
+            while p2.world.prims.is_empty() && tries < 5 {
+                p2 = crate::world::gen_problem(&mut r, &spec, Hostility::Plain);
+                tries += 1;
+            }
+            h.problems[1] = p2;
+            if h.params.kind == PKind::Prm {
+                h.problems[0].goal.radius *= 2.5;
+            }
+            let n_it = 10 + r.below(200) as u64;
+            h.ops = if h.params.kind == PKind::Prm {
+                vec![Op::Setup(0), Op::Construct, Op::Solve(10), Op::SetupMixed(0, 1), Op::Construct, Op::Solve(10)]
+            } else {
+                vec![Op::Setup(0), Op::Solve(n_it), Op::SetupMixed(0, 1), Op::Solve(n_it), Op::Solve(n_it)]
+            };
+            b.evaluations += 1;
+            with_kit!(spec, K, kit => {
+                if let Ok((_, recs)) = run_history::<K>(&kit, &h, false, 3_000_000) {
+                    let evals: Vec<Option<WorldEval<K>>> = h.problems.iter().map(|p| WorldEval::<K>::new(&kit, &p.world).ok()).collect();
+                    for c in &recs {
+                        if let (Res::Path(p), Some(ki)) = (&c.res, c.checker) {
+                            let Some(ev) = &evals[ki] else { continue };
+                            b.count("history_paths", 1);
+                            if ki == 1 {
+                                b.count("history_paths_after_checker_change", 1);
+                            }
+                            if p.len() >= 3 {
+                                b.distinct.insert(hash_path(p));
+                            }
+                            for (sig, det) in path_validity(&kit, ev, p) {
+                                let mut v = h.to_json();
+                                v["property"] = json!("C01");
+                                ctx.violate(&format!("{sig}:{}:after-checker-change", h.params.kind.name()), format!("{det} [history: {}]", h.describe()), v);
                             }
                         }
                     }
